@@ -917,7 +917,7 @@ def check_clear_cursor_at(prog, c, child_rel, r, root_rel, h, body):
     elem = strip(nf[0])
     idx_call = None
     for x in walk(elem):
-        if x.kind == 'call' and x.callee_name() in ('index', 'index_mut', 'get_unchecked') and len(x.args) == 2 and (vec_field_of(prog, x.args[0]) or ())[-1:] == r['free'][-1:]:
+        if x.kind == 'call' and x.callee_name() in ('index', 'index_mut', 'get_unchecked', 'get') and len(x.args) == 2 and (vec_field_of(prog, x.args[0]) or ())[-1:] == r['free'][-1:]:
             idx_call = x
     if idx_call is None:
         return 'visited slots are not read from the free list'
@@ -962,6 +962,17 @@ def check_clear_cursor_at(prog, c, child_rel, r, root_rel, h, body):
             if small is cur and big.kind == 'call' and big.callee_name() == 'len' and (vec_field_of(prog, big.args[0]) or ())[-1:] == r['free'][-1:] and big.point[0] in body:
                 g = blk
     if g is None:
+        # `while let Some(&i) = free.get(cursor)`: Some exactly while cursor < len, evaluated anew in every round
+        for blk in body:
+            d = b.switch_discr.get(blk)
+            if d is None:
+                continue
+            d = strip(d)
+            if d.kind == 'discr':
+                o = strip(d.args[0])
+                if o is not None and o.kind == 'call' and o.callee_name() == 'get' and len(o.args) == 2 and (vec_field_of(prog, o.args[0]) or ())[-1:] == r['free'][-1:] and strip(o.args[1]) is cur and o.point[0] in body:
+                    g = blk
+    if g is None:
         return 'the loop does not run while cursor < free_list.len() (length re-read in every round)'
     exits = [x for x in body for s2 in cfg.succ[x] if s2 not in body and s2 in cfg.can_return]
     if any(x != g for x in exits):
@@ -977,7 +988,7 @@ def counted_scan_bounds(prog, b, child_rel, r):
         return None
     pos = None
     for x in walk(strip(nf[0])):
-        if x.kind == 'call' and x.callee_name() in ('index', 'index_mut', 'get_unchecked') and len(x.args) == 2 and (vec_field_of(prog, x.args[0]) or ())[-1:] == r['free'][-1:]:
+        if x.kind == 'call' and x.callee_name() in ('index', 'index_mut', 'get_unchecked', 'get') and len(x.args) == 2 and (vec_field_of(prog, x.args[0]) or ())[-1:] == r['free'][-1:]:
             pos = strip(x.args[1])
     if pos is None or pos.kind != 'phi':
         return None
